@@ -214,7 +214,18 @@ func minimise(self string, eps []*Episode, prop, oracle string, budget time.Dura
 				changed = true
 			}
 		}
-		// 4. shrink walks and messages
+		// 4. lower the height (ops stay as they are: the model decides which
+		// of them are valid at the new height)
+		for _, hh := range []uint8{4, 6, 8, 10, 12} {
+			if hh >= last.Height {
+				break
+			}
+			hh := hh
+			if try(func(e *Episode) { e.Height = hh }) {
+				break
+			}
+		}
+		// 5. shrink walks and messages
 		for i := range last.Ops {
 			i := i
 			for last.Ops[i].K == "walk" && last.Ops[i].N > 1 && try(func(e *Episode) { e.Ops[i].N /= 2 }) {
